@@ -2,8 +2,9 @@ import TongoModel.Cell
 /-! Error behaviour of the cell-reading primitives at the ideal level (a reader over the bit list and the reference
 list of ONE cell of the tree) and of the hand-written TL-B decoders whose loops, recursion or index arithmetic are
 driven by untrusted data: hashmap labels and the hashmap walk, `countLeafs`, SnakeData chains, BinTree, the VM stack
-list. Go partiality is explicit: a negative width or count reaching `ReadUint` / `ReadBits` is a `panic` here (it
-reaches `make` or slicing in Go), conversions `uint → int` wrap, `int` subtraction may go negative.
+list. Go partiality is explicit: a negative width or count is the error `ErrNegativeBitLen` (the repaired readers, repo
+commit 31abce9), conversions `uint → int` wrap, `int` subtraction may go negative, `boc.NewCellWithBits` panics beyond
+1023 bits.
 
 The decoders of element types (values, keys, extras) are parameters: the reflection-driven generic decoder over all
 shipped types is covered by the fault-injection oracles of the harness, not by theorems. -/
@@ -23,24 +24,24 @@ def readBit (r : Rd) : Outcome (Bool × Rd) :=
   | [] => .err "not enough bits"
   | b :: rest => .ok (b, { r with bits := rest })
 
-/-- `ReadUint(n)` for a Go `int` n: `> 64` is an error, not enough bits is an error, a NEGATIVE width passes both
-checks and reaches slicing / shifting (modelled as panic) -/
+/-- `ReadUint(n)` for a Go `int` n (after repo fix 31abce9, "negative bit counts are rejected"): a negative width is
+`ErrNegativeBitLen`, `> 64` is an error, not enough bits is an error -/
 def readUint (n : Int) (r : Rd) : Outcome (Nat × Rd) :=
-  if n > 64 then .err "too much bits for uint64"
+  if n < 0 then .err "negative bit length"
+  else if n > 64 then .err "too much bits for uint64"
   else if (r.bits.length : Int) < n then .err "not enough bits"
-  else if n < 0 then .panic "negative bit length"
   else .ok (Bits.bitsToNat (r.bits.take n.toNat), { r with bits := r.bits.drop n.toNat })
 
-/-- `ReadBits(n)`: a negative count passes the availability check and reaches `make` -/
+/-- `ReadBits(n)`: a negative count is `ErrNegativeBitLen` (31abce9) -/
 def readBits (n : Int) (r : Rd) : Outcome (List Bool × Rd) :=
-  if (r.bits.length : Int) < n then .err "not enough bits"
-  else if n < 0 then .panic "makeslice: len out of range"
+  if n < 0 then .err "negative bit length"
+  else if (r.bits.length : Int) < n then .err "not enough bits"
   else .ok (r.bits.take n.toNat, { r with bits := r.bits.drop n.toNat })
 
-/-- `Skip(n)`: a negative count moves the cursor backwards; the next read then indexes out of range -/
+/-- `Skip(n)`: a negative count is `ErrNegativeBitLen` (31abce9) -/
 def skip (n : Int) (r : Rd) : Outcome Rd :=
-  if (r.bits.length : Int) < n then .err "not enough bits"
-  else if n < 0 then .panic "negative skip"
+  if n < 0 then .err "negative bit length"
+  else if (r.bits.length : Int) < n then .err "not enough bits"
   else .ok { r with bits := r.bits.drop n.toNat }
 
 /-- `NextRef` -/
